@@ -18,7 +18,7 @@ fn main() {
         return;
     }
     if args.flag("serve") {
-        c16::serve_main(&args.get_or("certs", ""), &args.get_or("addr-file", ""));
+        c16::serve_main_at(&args.get_or("certs", ""), &args.get_or("addr-file", ""), &args.get_or("bind", "127.0.0.1:0"));
         return;
     }
     if let Some(name) = args.get("c09-child") {
@@ -37,13 +37,14 @@ fn main() {
         "C01" => l3routers::run_c01(&mut rep, &tier, seed),
         "C02" => l3routers::run_c02(&mut rep, &tier, seed),
         "C03" => c03::run(&mut rep, &tier, seed),
-        "C04" => c04::run(&mut rep, &tier, seed),
+        "C04" => c04::run(&mut rep, &tier, seed, &exe),
         "C06" => c06::run(&mut rep, &tier, seed, &exe),
         "C07" => c07::run(&mut rep, &tier, seed),
         "C09" => l3routers::run_c09(&mut rep, &tier, seed, &exe),
         "C10" => l3routers::run_c10(&mut rep, &tier, seed),
         "C11" => c11::run(&mut rep, &tier, seed),
         "C12" => c12::run(&mut rep, &tier, seed),
+        "C14" => c12::run_c14(&mut rep, &tier, seed),
         "C15" => c15::run(&mut rep, &tier, seed),
         "C16" => c16::run(&mut rep, &tier, seed, &exe),
         "C17" => c17::run(&mut rep, &tier, seed),
